@@ -106,6 +106,7 @@ type c33rec struct {
 	evs    []string
 	hist   []string
 	nrepl  int
+	nets   int // requests the environment deliberately left unanswered
 }
 
 func (r *c33rec) reset(c *c33case, idx int, tag, remote string) {
@@ -117,6 +118,7 @@ func (r *c33rec) reset(c *c33case, idx int, tag, remote string) {
 	r.evs = nil
 	r.hist = nil
 	r.nrepl = 0
+	r.nets = 0
 }
 
 func (r *c33rec) add(kind, s string) {
@@ -212,6 +214,39 @@ func (r *c33rec) badLocked(k int) {
 	r.bad(k)
 }
 
+// ---- client-side transport failures.  The real clients use http.DefaultTransport; it is wrapped
+// so that a request that failed without the environment having refused it on purpose (connect
+// failure or client timeout on a loaded machine) is noticed: such a case is re-run, and if it
+// keeps happening it is reported inconclusive, never compared.
+
+type c33transport struct {
+	base http.RoundTripper
+	mu   sync.Mutex
+	errs map[string]int
+}
+
+func (t *c33transport) RoundTrip(q *http.Request) (*http.Response, error) {
+	resp, err := t.base.RoundTrip(q)
+	if err != nil {
+		t.mu.Lock()
+		t.errs[q.URL.Host]++
+		t.mu.Unlock()
+	}
+	return resp, err
+}
+
+func (t *c33transport) count(hosts []string) int {
+	t.mu.Lock()
+	defer t.mu.Unlock()
+	n := 0
+	for _, h := range hosts {
+		n += t.errs[h]
+	}
+	return n
+}
+
+var c33tr = &c33transport{errs: map[string]int{}}
+
 // ---- entry 0: httptest environment owned by one worker
 
 type c33http struct {
@@ -234,8 +269,11 @@ func c33serve(h http.HandlerFunc) *httptest.Server {
 	return s
 }
 
-func c33answer(w http.ResponseWriter, resp c33resp, body string) {
+func (e *c33http) answer(w http.ResponseWriter, resp c33resp, body string) {
 	if resp.net {
+		e.rec.mu.Lock()
+		e.rec.nets++
+		e.rec.mu.Unlock()
 		if hj, ok := w.(http.Hijacker); ok {
 			if conn, _, err := hj.Hijack(); err == nil {
 				conn.Close()
@@ -259,11 +297,11 @@ func newC33http(real []*c33blobsrv) *c33http {
 		switch {
 		case q.Method == "GET" && p == "/origin":
 			resp, _ := e.rec.tagReq("origin", "", nil, false)
-			c33answer(w, resp, e.rec.remote)
+			e.answer(w, resp, e.rec.remote)
 		case q.Method == "HEAD" && strings.HasPrefix(p, "/tags/") && strings.Count(p, "/") == 2:
 			tag, _ := url.PathUnescape(strings.TrimPrefix(p, "/tags/"))
 			resp, _ := e.rec.tagReq("has", tag, nil, false)
-			c33answer(w, resp, "")
+			e.answer(w, resp, "")
 		case q.Method == "PUT" && strings.HasPrefix(p, "/tags/"):
 			parts := strings.Split(strings.TrimPrefix(p, "/tags/"), "/")
 			if len(parts) != 3 || parts[1] != "digest" {
@@ -278,7 +316,7 @@ func newC33http(real []*c33blobsrv) *c33http {
 				dp = &d
 			}
 			resp, _ := e.rec.tagReq("put", tag, dp, q.URL.Query().Get("replicate") == "true")
-			c33answer(w, resp, "")
+			e.answer(w, resp, "")
 		default:
 			e.rec.tagReq("?", "", nil, false)
 			w.WriteHeader(500)
@@ -308,13 +346,13 @@ func newC33http(real []*c33blobsrv) *c33http {
 				return
 			}
 			if e.real == nil {
-				c33answer(w, e.rec.repl(i, ns, d, remote), "")
+				e.answer(w, e.rec.repl(i, ns, d, remote), "")
 				return
 			}
 			resp, record := e.rec.replBegin(i, ns, d, remote)
 			if resp.net || resp.h == nil {
 				record(c33resp{net: true})
-				c33answer(w, c33resp{net: true}, "")
+				e.answer(w, c33resp{net: true}, "")
 				return
 			}
 			e.real[i].serve(w, q, e.rec, d, resp.h, record)
@@ -354,7 +392,7 @@ func newC33http(real []*c33blobsrv) *c33http {
 				w.Header().Set("Origin-Locations", "")
 				w.WriteHeader(200)
 			case 2:
-				c33answer(w, c33resp{net: true}, "")
+				e.answer(w, c33resp{net: true}, "")
 			case 3:
 				w.WriteHeader(404)
 			default:
@@ -394,17 +432,30 @@ func c33task(c *c33case, idx int, tag, dest string) *tagreplication.Task {
 	return tagreplication.NewTask(tag, c33tagDigest, deps, dest, 0)
 }
 
-func (e *c33http) run(c *c33case, idx int) (bool, []string, []string, int) {
+func (e *c33http) hosts() []string {
+	hs := []string{c33addr(e.tagSrv), c33addr(e.cluSrv)}
+	for _, o := range e.origins {
+		hs = append(hs, c33addr(o))
+	}
+	return hs
+}
+
+// run executes the case once.  incon = the client lost a request that the environment had not
+// refused on purpose (connect failure or client-side timeout on a loaded machine); the caller
+// then throws this environment away (a late request must not reach the next case) and re-runs.
+func (e *c33http) run(c *c33case, idx int) c33out {
 	tag := fmt.Sprintf("verif/c33 img:%d", idx) // needs path escaping
 	remote := fmt.Sprintf("remote-origin-%d.example:8080", idx)
 	e.rec.reset(c, idx, tag, remote)
+	before := c33tr.count(e.hosts())
 	err := e.exec.Exec(c33task(c, idx, tag, c33addr(e.tagSrv)))
 	for _, b := range e.real {
 		b.endCase()
 	}
+	lost := c33tr.count(e.hosts()) - before
 	e.rec.mu.Lock()
 	defer e.rec.mu.Unlock()
-	return err == nil, e.rec.evs, e.rec.hist, e.rec.nrepl
+	return c33out{ok: err == nil, evs: e.rec.evs, hist: e.rec.hist, nrepl: e.rec.nrepl, incon: lost != e.rec.nets}
 }
 
 // ---- entry 1: fakes around the real Poll
@@ -512,7 +563,7 @@ func (c *c33fakeCluster) ReplicateToRemote(ns string, d core.Digest, remote stri
 	})
 }
 
-func c33runPoll(c *c33case, idx int) (bool, []string, []string, int) {
+func c33runPoll(c *c33case, idx int) c33out {
 	rec := &c33rec{}
 	tag := fmt.Sprintf("verif/c33 img:%d", idx)
 	rec.reset(c, idx, tag, fmt.Sprintf("remote-origin-%d.example:8080", idx))
@@ -520,7 +571,7 @@ func c33runPoll(c *c33case, idx int) (bool, []string, []string, int) {
 	ex := tagreplication.NewExecutor(tally.NoopScope, &c33fakeCluster{res: res},
 		c33fakeProvider{&c33fakeTag{rec: rec}})
 	err := ex.Exec(c33task(c, idx, tag, "remote-build-index:80"))
-	return err == nil, rec.evs, rec.hist, rec.nrepl
+	return c33out{ok: err == nil, evs: rec.evs, hist: rec.hist, nrepl: rec.nrepl}
 }
 
 // ---- Coq printing
@@ -843,6 +894,8 @@ func c33random(r *hlib.Rng, i int) c33case {
 }
 
 func c33(ctx *hlib.Ctx) {
+	c33tr.base = http.DefaultTransport
+	http.DefaultTransport = c33tr
 	zc := zap.NewProductionConfig()
 	zc.OutputPaths = []string{}
 	log.ConfigureLogger(zc)
@@ -868,9 +921,9 @@ func c33(ctx *hlib.Ctx) {
 	c33addServerCases(ctx, r, add)
 
 	outs := make([]c33out, len(cases))
-	nw := 96
+	nw := 64
 	if ctx.Tier == "thorough" {
-		nw = 192
+		nw = 96
 	}
 	jobs := make(chan int, len(cases))
 	for i := range cases {
@@ -883,42 +936,50 @@ func c33(ctx *hlib.Ctx) {
 		wg.Add(1)
 		go func() {
 			defer wg.Done()
-			var env, srv *c33http
+			envs := map[int]*c33http{} // per entry (0 http, 2 server), owned by this worker
+			gen := 0
+			get := func(entry int) *c33http {
+				if envs[entry] == nil {
+					if entry == 2 {
+						gen++
+						envs[entry] = newC33http(newC33blobsrvs(ctx, w*1000+gen))
+					} else {
+						envs[entry] = newC33http(nil)
+					}
+				}
+				return envs[entry]
+			}
 			for i := range jobs {
 				c := &cases[i]
-				done := make(chan c33out, 1)
-				go func() {
-					var o c33out
-					switch c.entry {
-					case 0:
-						if env == nil {
-							env = newC33http(nil)
+				var o c33out
+				for attempt := 0; attempt < 3; attempt++ {
+					done := make(chan c33out, 1)
+					go func() {
+						if c.entry == 1 {
+							done <- c33runPoll(c, i)
+						} else {
+							done <- get(c.entry).run(c, i)
 						}
-						o.ok, o.evs, o.hist, o.nrepl = env.run(c, i)
-					case 1:
-						o.ok, o.evs, o.hist, o.nrepl = c33runPoll(c, i)
-					case 2:
-						if srv == nil {
-							srv = newC33http(newC33blobsrvs(ctx, w))
-						}
-						o.ok, o.evs, o.hist, o.nrepl = srv.run(c, i)
+					}()
+					select {
+					case o = <-done:
+					case <-time.After(240 * time.Second):
+						// never decided by a timeout: not evaluated
+						o = c33out{incon: true}
 					}
-					done <- o
-				}()
-				select {
-				case o := <-done:
-					outs[i] = o
-				case <-time.After(240 * time.Second):
-					// never decided by a timeout: not evaluated; the environment is abandoned
-					outs[i] = c33out{incon: true}
-					env, srv = nil, nil
+					if !o.incon {
+						break
+					}
+					if env := envs[c.entry]; env != nil {
+						delete(envs, c.entry)
+						go env.close() // abandoned; closing waits for its stragglers
+					}
+					time.Sleep(300 * time.Millisecond)
 				}
+				outs[i] = o
 			}
-			if env != nil {
+			for _, env := range envs {
 				env.close()
-			}
-			if srv != nil {
-				srv.close()
 			}
 		}()
 	}
